@@ -428,7 +428,8 @@ func redactPipelineStage(stage interface{}, redactFieldNames bool, keyPath []str
 						}
 						newMap.Set(redactedKey, redactedArr)
 					} else {
-						newMap.Set(redactedKey, v)
+						// not an array of operands: redact it below
+						break
 					}
 					continue
 				}
@@ -501,7 +502,8 @@ func redactPipelineStage(stage interface{}, redactFieldNames bool, keyPath []str
 										}
 										newSubMap.Set(subK, redactedArr)
 									} else {
-										newSubMap.Set(subK, subV)
+										// not an array of operands: redact it below
+										break
 									}
 									continue
 								case Pipeline:
